@@ -45,6 +45,18 @@ VSubEntry(l, kind, en) ==
        ELSE "sub-bases"
 VSub(ev) == FirstBad([k \in DOMAIN ev[4] |-> VSubEntry(ev[2], ev[3], ev[4][k])])
 
+(* ["scanw", loc, kind, entries = <<windowSize, stepSize, startPos, outcome>>...] : scan_windows yields, in relative order,
+   exactly the windows [p0 + k*step, p0 + k*step + w) that fit, each the sub-interval the point-wise map gives;
+   outcome value = <<"v", <<"v", loc, parentId>>...>> *)
+VScanEntry(l, kind, en) ==
+  LET w == en[1] st == en[2] p0 == en[3] o == en[4] n == LenLoc(l) IN
+  IF ~(0 <= p0 /\ p0 < n) \/ w < 1 \/ st < 1 \/ w > n \/ p0 + w > n \/ ~Directional(St(l))
+  THEN Ok(Rejected(o), "windows-rejects-invalid")
+  ELSE IF ~IsVal(o) THEN "windows-returns"
+  ELSE IF Len(o[2]) # ((n - w - p0) \div st) + 1 THEN "windows-count"
+  ELSE FirstBad([k \in DOMAIN o[2] |-> VSubEntry(l, kind, <<p0 + (k - 1) * st, p0 + (k - 1) * st + w, "+", o[2][k]>>)])
+VScan(ev) == FirstBad([k \in DOMAIN ev[4] |-> VScanEntry(ev[2], ev[3], ev[4][k])])
+
 (* ["rel", outer, q, kind, outcomeOptimized, outcomeRaw] : outer.parent_to_relative_location(q, optimize_blocks) *)
 VRelOne(outer, q, o, optimized) ==
   LET shared == PosSet(q) \cap PosSet(outer) IN
@@ -76,7 +88,7 @@ VR2P1(ev) == LET l == ev[2] i == ev[3] o == ev[4] IN
 VP2R1(ev) == LET l == ev[2] p == ev[3] o == ev[4] IN
   IF ~Directional(St(l)) THEN "ok"
   ELSE IF p \in PosSet(l) THEN Ok(IsVal(o) /\ o[2] \in Par2RelSet(l, p), "parent-to-rel") ELSE Ok(Rejected(o), "parent-to-rel")
-Verdict(ev) == CASE ev[1] = "r2p1" -> VR2P1(ev) [] ev[1] = "p2r1" -> VP2R1(ev) [] ev[1] = "map" -> VMap(ev) [] ev[1] = "sub" -> VSub(ev) [] ev[1] = "rel" -> VRel(ev)
+Verdict(ev) == CASE ev[1] = "r2p1" -> VR2P1(ev) [] ev[1] = "p2r1" -> VP2R1(ev) [] ev[1] = "map" -> VMap(ev) [] ev[1] = "sub" -> VSub(ev) [] ev[1] = "scanw" -> VScan(ev) [] ev[1] = "rel" -> VRel(ev)
                  [] ev[1] = "cert" -> VCert(ev) [] OTHER -> "unknown-op"
 Bad == {i \in DOMAIN Trace : Verdict(Trace[i]) # "ok"}
 ASSUME \A i \in Bad : PrintT(<<"BAD", i, Verdict(Trace[i])>>)
